@@ -783,15 +783,26 @@ Definition class_hash_foreign (ev : env) (g : group) : bool :=
   | _ => false
   end.
 
+(* The documentation describes '@' / '#' for a homogeneous group whose processes all got the SAME rule. When the
+   processes of one program got different '@' / '#' lists from different <program> elements (the code logs
+   "inconsistent identifiers rules" and keeps the list of the last process added), nothing is specified.
+   The precondition is decidable: the list held by the group is the one list its waiting processes carry. *)
+Definition holds (o : option (list Z)) (L : list Z) : bool :=
+  match o with Some l => zl_eqb l L | None => false end.
+
 (* expected observation of one resolve_rules, None when only "no exception" is demanded *)
-Definition spec_resolve (ev : env) (ps : list gproc) : option (list tobs) :=
+Definition spec_resolve (ev : env) (g : group) : option (list tobs) :=
+  let ps := gr_procs g in
   if no_sign ps then Some (map tobs_of ps)
   else match uniform_at ps, uniform_hash ps with
-       | Some L, None => Some (spec_at ev L ps)
+       | Some L, None =>
+           if holds (gr_at g) L && negb (truthy (gr_hash g)) then Some (spec_at ev L ps) else None
        | None, Some L =>
-           let ref := ref_identifiers ev L in
-           if is_nil ref then Some (map tobs_of ps)
-           else if fresh ps then Some (spec_hash_fresh ref ps)
+           if holds (gr_hash g) L && negb (truthy (gr_at g)) then
+             let ref := ref_identifiers ev L in
+             if is_nil ref then Some (map tobs_of ps)
+             else if fresh ps then Some (spec_hash_fresh ref ps)
+             else None
            else None
        | _, _ => None
        end.
@@ -815,7 +826,7 @@ Definition check_resolve (ev : env) (g : group) (observed : result (list tobs)) 
       else if class_hash_empty_ref ev g then VKnown K_HASH_EMPTY
       else VBad
   | Ok ts =>
-      match spec_resolve ev (gr_procs g) with
+      match spec_resolve ev g with
       | Some expected => if list_eqb tobs_eqb ts expected then VOk else VBad
       | None => if Nat.eqb (length ts) (length (gr_procs g)) then VOk else VBad
       end
